@@ -1,1 +1,4 @@
 pub mod c26;
+pub mod c29;
+pub mod c32;
+pub mod c33;
